@@ -23,6 +23,18 @@ CHECKS = {
  "C14": dict(engine="z3", technique="z3 bounded CFG equivalence with start symbol Rule against the reference `(@key: expr;)* expr`",
    text=BOUNDED + "Grammar part only: the Rule/MetaItem productions derive exactly `(@ key : expr ;)* expr` with items in textual order and the expression subtree equal to the parse of the remaining tokens.",
    note="Weakest claim of the set: name/description precedence, last-wins, missing-name error and comment-line extraction (RuleBuilder, Rule::parse) are NOT decided.", ref="3/C14"),
+ "C06": dict(engine="kani", technique="Kani/CBMC on reval's parse helpers, string unescaping and the verbatim IndexExpr action over every ASCII token text of listed lengths admitted by the token's regex (acceptor compiled from the source regex)",
+   text=BOUNDED + "For every regex token whose text reaches reval's own code and every listed length, all ASCII texts admitted by the token's regex are run through the helper / action; Kani's panic, unwrap, slice-bound and char-boundary checks decide (e.g. the 20/21-digit list index).",
+   note="Lexer (regex-automata) and lalrpop driver totality are third-party and outside; float/decimal parsers and integer parsers at >=20 digits are stubbed total; Rule::parse comment extraction and RuleBuilder outside; string literals: shapes with <=2 body characters.", ref="3/C06"),
+ "C08": dict(engine="z3", technique="z3 bounded whole-token equivalence of the source lexer (regex->DFA, rebuilt each run) against a reference lexical spec over symbolic strings; Kani differential harnesses of the numeric/string helpers against Horner / reference decoders",
+   text=BOUNDED + "(a) for every string up to the bound the source patterns and the reference lexical spec assign the same token (hence the same tokenisation: keyword vs identifier, literal shapes, layout); (b) digit strings of listed lengths denote their Horner value and helpers pass exactly the text after the prefix to the std/rust_decimal parser; (c) every 1-2 character escape decodes per the table.",
+   note="Trusted: lalrpop matcher semantics (validated against the real matcher on the suite's inputs each run), f64::from_str / Decimal::from_str contracts. Bounds: 6 code points quick / 10 thorough; integers <=6 (8) digits exactly, longer structurally; \\u{..} escapes and strings > 2 chars outside.", ref="3/C08"),
+ "C13": dict(engine="kani", technique="Kani/CBMC harness per serde data-model kind through the public Serialize/Serializer API (symbolic payloads over the whole type)",
+   text=BOUNDED + "All 12 integer widths over their whole range (exact value or error, never another number), f32/f64 bit-exact, bool, char, unit, option, unit/newtype struct, four variant shapes, every non-string key kind -> error, failing Serialize impl -> error not panic, small containers.",
+   note="Containers with > 2 elements/fields and nested containers outside (timeouts there are listed inconclusive); serde_json itself is not executed (its data-model mapping is what is asserted).", ref="3/C13"),
+ "C15": dict(engine="kani", technique="Kani/CBMC on is_valid_identifier / is_reserved_keyword against reference predicates for all ASCII names <= 3 bytes, every reserved word with its one-byte extensions and truncations",
+   text=BOUNDED + "The two predicates with_function relies on agree with the reference (first char `_` or XID_Start, rest XID_Continue; the 38 reserved words plus every lexer keyword) for every ASCII name up to 3 bytes, selected non-ASCII names, and all near misses of reserved words.",
+   note="Function names only: duplicate detection for rules and functions (add_boxed_function gave no CBMC verdict), symbol overwrite and invocability are NOT decided.", ref="3/C15"),
  "C17": dict(engine="kani", technique="Kani/CBMC harness per conversion and per (target, source tag) over the whole source type",
    text=BOUNDED + "Every integer extraction over all i128 values, every widening over the whole source type, same-kind round trips, every wrong-kind extraction (error carries the same value), Option, and small containers.",
    note="Containers beyond 2 elements / 1 entry and HashMap are outside; container harnesses that time out are listed inconclusive.", ref="3/C17"),
@@ -36,7 +48,7 @@ NA = {
  "C19": "native stack exhaustion is not represented in CBMC's memory model and occurs at depths (1e2-1e5 frames) far beyond any unwinding that terminates here",
 }
 PENDING = {p: "check under construction in this session (see DESIGN.md section 3); not claimed until it is registered here" for p in
-           ["C05", "C06", "C08", "C13", "C15", "C16"]}
+           ["C05", "C16"]}
 def main():
     checks = []
     for pid, c in CHECKS.items():
